@@ -113,7 +113,7 @@ func (r *rng) intn(n int) int {
 	}
 	return int(r.u64() % uint64(n))
 }
-func (r *rng) bool() bool     { return r.u64()&1 == 1 }
+func (r *rng) bool() bool        { return r.u64()&1 == 1 }
 func (r *rng) chance(p int) bool { return r.intn(100) < p }
 func (r *rng) bytes(n int) []byte {
 	b := make([]byte, n)
@@ -171,6 +171,14 @@ func main() {
 		must(fout.Close())
 		must(fref.Close())
 		writeJSON(prefix+".stats.json", st)
+	case "freerun":
+		// h2v freerun <seed> <rounds>: client against server, no lockstep, hooks off (for the -race build)
+		if len(os.Args) != 4 {
+			usage()
+		}
+		seed, _ := strconv.ParseUint(os.Args[2], 10, 64)
+		n, _ := strconv.Atoi(os.Args[3])
+		runFreeRun(seed, n)
 	case "replay":
 		// h2v replay <suite> <case line>: run one stored case against the implementation.
 		if len(os.Args) < 4 {
